@@ -24,6 +24,7 @@ pub enum Obs {
     Signal { child: u32, sig: i32 },
     Kill { child: u32 },
     KillFail { child: u32 },
+    WaitFail,
     SignalFail { child: u32, sig: i32 },
     Reaped { child: u32, status: i32 },
     Probe { op: u32, cur: String, prev: String },
@@ -105,6 +106,8 @@ struct M<'a> {
     outstanding: Vec<u32>,
     gone: bool,
     amb: Option<&'static str>,
+    /// the process just started fails its first wait(): reported as soon as the current control is over
+    wait_fail_due: bool,
 }
 
 impl<'a> M<'a> {
@@ -209,6 +212,7 @@ impl<'a> M<'a> {
         let env = self.hook.map(|h| h.0 as i64).unwrap_or(-1);
         self.emit(Obs::Spawn { child: k, hook_env: env });
         self.cur = Cur::Running(k);
+        self.wait_fail_due = self.children[k as usize].spec.fail_wait;
         true
     }
     fn reset(&mut self) {
@@ -426,8 +430,8 @@ impl<'a> M<'a> {
 }
 
 pub fn run_model(scn: &E1Scn) -> ModelResult {
-    if scn.senders.len() != 1 || scn.drop_handles || scn.children.iter().any(|c| c.fail_wait) {
-        return ModelResult::Ambiguous("outside the model's scope (several senders, dropped handles or wait() failures)");
+    if scn.senders.len() != 1 || scn.drop_handles {
+        return ModelResult::Ambiguous("outside the model's scope (several senders or dropped handles)");
     }
     let mut t = 0;
     let mut arrivals = VecDeque::new();
@@ -461,6 +465,7 @@ pub fn run_model(scn: &E1Scn) -> ModelResult {
         outstanding: vec![],
         gone: false,
         amb: None,
+        wait_fail_due: false,
     };
     let mut steps = 0;
     loop {
@@ -477,6 +482,14 @@ pub fn run_model(scn: &E1Scn) -> ModelResult {
             break;
         }
         m.enqueue_arrivals_until(m.now);
+        if m.wait_fail_due {
+            // the job task watches its process before anything else: a failing wait() is reported to the error
+            // handler, and watching resumes (the failure is one-shot)
+            m.wait_fail_due = false;
+            m.emit(Obs::WaitFail);
+            m.error();
+            continue;
+        }
         let exit_ready = m.running_child().and_then(|k| m.children[k as usize].death.map(|d| (k, d.0))).filter(|(_, at)| *at <= m.now);
         let timer_past = m.timer.map(|(d, _, _)| d <= m.now).unwrap_or(false);
         let ctl_ready = timer_past || !m.q[2].is_empty() || !m.q[1].is_empty() || (m.timer.is_none() && !m.q[0].is_empty());
@@ -538,6 +551,7 @@ pub fn observed_trace(scn: &E1Scn, out: &RunOut) -> Vec<(u64, Obs)> {
             Ev::Signal { child, sig, .. } => Obs::Signal { child: *child, sig: *sig },
             Ev::Kill { child } => Obs::Kill { child: *child },
             Ev::KillFail { child } => Obs::KillFail { child: *child },
+            Ev::WaitFail { .. } => Obs::WaitFail,
             Ev::SignalFail { child, sig } => Obs::SignalFail { child: *child, sig: *sig },
             Ev::Reaped { child, status } => Obs::Reaped { child: *child, status: *status },
             Ev::MarkerStart { op, cur, prev } => Obs::Probe { op: *op, cur: sk(cur), prev: sk(prev) },
@@ -604,8 +618,8 @@ fn klass(k: u64) -> ChildSpec {
 }
 pub const CLASSES: u64 = 6;
 
-/// fault plans of the exhaustive part: none, first / second spawn fails, first kill / first signal on the first process fails
-pub const PLANS: u64 = 5;
+/// fault plans of the exhaustive part: none, first / second spawn fails, first kill / first signal / first wait on the first process fails
+pub const PLANS: u64 = 6;
 
 /// number of exhaustive scenarios of length <= max_len: sum ALPHA^len * 2 (burst/settled) * CLASSES * PLANS
 pub fn exhaustive_count(max_len: u32) -> u64 {
@@ -643,7 +657,7 @@ pub fn exhaustive_scn(mut idx: u64, max_len: u32) -> Option<E1Scn> {
         family: if settled { "exh-settled".into() } else { "exh-burst".into() },
         grouped: false,
         session: false,
-        children: vec![ChildSpec { fail_kill: sf == 3, fail_signal: sf == 4, ..klass(class) }],
+        children: vec![ChildSpec { fail_kill: sf == 3, fail_signal: sf == 4, fail_wait: sf == 5, ..klass(class) }],
         spawn_fail: match sf {
             1 => vec![0],
             2 => vec![1],
@@ -696,6 +710,7 @@ pub fn gen_model_random(rng: &mut Rng) -> E1Scn {
             // one-shot failures of the operations on this process
             c.fail_kill = rng.chance(1, 5);
             c.fail_signal = rng.chance(1, 6);
+            c.fail_wait = rng.chance(1, 8);
             c
         })
         .collect();
@@ -769,6 +784,18 @@ impl Check for C09 {
                 if want.iter().any(|(_, o)| matches!(o, Obs::SpawnFail { .. })) {
                     stats.hit("fault:spawn-failure");
                 }
+                if want.iter().any(|(_, o)| matches!(o, Obs::KillFail { .. })) {
+                    stats.hit("fault:kill-error");
+                }
+                if want.iter().any(|(_, o)| matches!(o, Obs::SignalFail { .. })) {
+                    stats.hit("fault:signal-error");
+                }
+                if want.iter().any(|(_, o)| matches!(o, Obs::WaitFail)) {
+                    stats.hit("fault:wait-error");
+                }
+                if want.iter().any(|(_, o)| matches!(o, Obs::Err { .. })) {
+                    stats.hit("probe:error-handler-called");
+                }
                 if want.iter().any(|(_, o)| matches!(o, Obs::Hook { .. })) {
                     stats.hit("probe:spawn-hook-called");
                 }
@@ -794,6 +821,7 @@ impl Check for C09 {
                             Some(Obs::Signal { .. }) => "signal",
                             Some(Obs::Kill { .. }) => "kill",
                             Some(Obs::KillFail { .. }) => "kill-failure",
+                            Some(Obs::WaitFail) => "wait-failure",
                             Some(Obs::SignalFail { .. }) => "signal-failure",
                             Some(Obs::Reaped { .. }) => "reap",
                             Some(Obs::Probe { .. }) | Some(Obs::ProbeEnd { .. }) => "probe",
@@ -820,10 +848,20 @@ impl Check for C09 {
         !matches!(run_model(scn), ModelResult::Ambiguous(_)) && out.hist.iter().any(|r| matches!(r.ev, Ev::Spawn { .. }))
     }
     fn rule(&self) -> String {
-        "quick: every control sequence of length <= 3 over an 18-letter alphabet x {burst, settled} x 6 child behaviour classes x 3 spawn-failure plans, then seeded-random sequences of length 2-30 (thorough: length <= 4 under four schedule seeds, then random); each run under a seeded scheduling policy. distinct = distinct hash of the recorded history; non-trivial = the scenario is tie-free (so it was compared observation by observation with the reference model) and spawned at least one child".into()
+        "quick: every control sequence of length <= 3 over an 18-letter alphabet x {burst, settled} x 6 child behaviour classes x 6 fault plans (none; first or second spawn fails; first kill, signal or wait on the first process fails), then seeded-random sequences of length 2-30 (thorough: length <= 4 under four schedule seeds, then random); each run under a seeded scheduling policy. distinct = distinct hash of the recorded history; non-trivial = the scenario is tie-free (so it was compared observation by observation with the reference model) and spawned at least one child".into()
     }
     fn required_probes(&self, _tier: Tier) -> Vec<&'static str> {
-        vec!["probe:compared-with-model", "fault:spawn-failure", "probe:spawn-hook-called", "probe:kill", "probe:job-task-ended"]
+        vec![
+            "probe:compared-with-model",
+            "fault:spawn-failure",
+            "fault:kill-error",
+            "fault:signal-error",
+            "fault:wait-error",
+            "probe:error-handler-called",
+            "probe:spawn-hook-called",
+            "probe:kill",
+            "probe:job-task-ended",
+        ]
     }
     fn components(&self) -> Value {
         let mut c = e1_components();
